@@ -29,14 +29,16 @@ def translate_hash_uses():
     sc, rows = c05_scan.scan(root)
     crates_root = os.path.dirname(os.path.dirname(root))
     front_end = c05_scan.front_end_std_hash(crates_root)
-    text = c05_scan.render_lean(rows, root, front_end)
+    env_rows = c05_scan.env_inputs(crates_root, root)
+    text = c05_scan.render_lean(rows, root, front_end, env_rows)
     os.makedirs(os.path.dirname(GENERATED), exist_ok=True)
     if not os.path.exists(GENERATED) or open(GENERATED, encoding="utf-8").read() != text:
         with open(GENERATED, "w", encoding="utf-8") as f:
             f.write(text)
     vlib.ensure_dirs()
     with open(SCAN_JSON, "w") as f:
-        json.dump({"root": root, "rows": rows, "bindings": sc.bindings, "front_end_std_hash": front_end}, f, indent=1)
+        json.dump({"root": root, "rows": rows, "bindings": sc.bindings, "front_end_std_hash": front_end,
+                   "env_rows": env_rows}, f, indent=1)
 
 
 SPEC = {
@@ -45,7 +47,7 @@ SPEC = {
     "lean_modules": ["TrustVerif.Props.C05"],
     "translators": [translate_hash_uses],
     "tiers": {
-        "quick": {"cases": 40, "extra": {"children": 4, "cycles": 10}},
+        "quick": {"cases": 32, "extra": {"children": 4, "cycles": 10}},
         "thorough": {"cases": 1000, "extra": {"children": 5, "cycles": 16}},
     },
     "timeout": 7200,
@@ -64,7 +66,14 @@ SPEC = {
             "(dt incl. 0 and sub-ms, BOOL/DINT inputs, direct inputs, 1 in 6 with a warm/cold restart); projects declare "
             ">= 2 initialised VAR_GLOBAL RETAIN variables, scalars of 15 elementary types, subrange/alias/REF_TO types, and "
             "groups of overlapping %Q/%M bindings (X, B, W, D, L starting in the same byte or overlapping it; globals and "
-            "program variables; some assigned every cycle with non-commuting values, some never assigned); every case is "
+            "program variables; some assigned every cycle with non-commuting values, some never assigned), and in half of "
+            "the projects 2-3 equally long programs with labels and JMP; sources carry relative, partly non-normalised "
+            "paths; every case is compiled through CompileSession and two further public entry points (function API with "
+            "paths always, one of bytes/module x with/without paths in rotation); the children differ in working directory "
+            "(labelled files present / present with other contents / absent / behind a symlinked directory / behind "
+            "symlinked sub-directories), HOME, TMPDIR, LANG, LC_ALL, TZ, argv[0], GLIBC_TUNABLES, MALLOC_ARENA_MAX, "
+            "MALLOC_PERTURB_, environment size, number of warm-up projects run before in the observing thread, and unrelated "
+            "live allocations between cycles; every case is "
             "compiled and run twice in the parent (two threads) and once in each of >= 4 freshly spawned child processes; "
             "non-trivial = the container interned >= 24 strings, has >= 6 POUs and >= 8 cycles ran in every process; "
             "distinct = by hash of the case's operation lines",
@@ -80,6 +89,8 @@ SPEC = {
         "container; receiver resolution is by name and declared type, see level_note)",
         "two hand-reviewed order-exposing uses (`reviewedBenign` in Model/C05.lean), each backed by a Lean theorem "
         "about a model of that loop (commuting updates; retain with a pure predicate)",
+        "15 hand-reviewed environment inputs (`reviewedEnv` in Model/C05.lean: debug trace switches, metrics timers, "
+        "execution_deadline, file retain store, SourceKey canonicalisation used for identity only)",
         "Rust harness vharness c05 (project generator, child-process protocol, canonical per-cycle dump, FNV-1a "
         "128-bit digests standing for equality of observations)",
         "std::collections::HashMap/HashSet are lawful finite maps whose only process-dependent behaviour is their "
@@ -111,7 +122,10 @@ MANIFEST = {
                   "trust-runtime's compile and execution path, regenerated from the sources on every run, contains only "
                   "order-free operations plus two reviewed loops whose order-independence is proved on a model "
                   "(c05_no_order_exposure, c05_reviewed_*), and trust-hir/trust-syntax contain no std hash container "
-                  "(c05_front_end_std_hash_free). Each run compiles generated projects in the parent (twice) and in >= 4 fresh "
+                  "(c05_front_end_std_hash_free); a second generated table lists every thread_local!, mutable static, "
+                  "address-derived value, std::env read, file-system access, clock read, process/thread id, thread spawn, "
+                  "explicit randomness and machine query of the same files and each is a reviewed site "
+                  "(c05_env_inputs_reviewed). Each run compiles generated projects in the parent (twice) and in >= 4 fresh "
                   "OS processes (different RandomState, ASLR, heap pre-fill, thread, environment size, wall-clock pacing) and "
                   "compares container bytes; runs the same input/clock trace in each and compares, per cycle, all globals, "
                   "retained values, instances, I/O images, direct addresses, faults, overrun counters and runtime events; checks "
@@ -137,6 +151,25 @@ MANIFEST = {
 REVIEWED = {
     ("harness/config.rs", "apply_program_retain_overrides::retain_by_type", "forIn"),
     ("debug/control.rs", "DebugState.frame_locations", "retain"),
+}
+
+
+REVIEWED_ENV = {
+    ("trust-hir/src/db/queries/salsa_backend.rs", "default", "envRead"),
+    ("trust-hir/src/project.rs", "normalize_path", "fsAccess"),
+    ("trust-runtime/src/debug/trace.rs", "trace_enabled", "staticInterior"),
+    ("trust-runtime/src/debug/trace.rs", "trace_enabled", "envRead"),
+    ("trust-runtime/src/debug/trace.rs", "trace_log_file", "staticInterior"),
+    ("trust-runtime/src/debug/trace.rs", "trace_log_file", "envRead"),
+    ("trust-runtime/src/debug/trace.rs", "trace_log_file", "fsAccess"),
+    ("trust-runtime/src/eval/stmt.rs", "check_execution_budget", "wallClock"),
+    ("trust-runtime/src/retain.rs", "write_bytes", "fsAccess"),
+    ("trust-runtime/src/retain.rs", "read_bytes", "fsAccess"),
+    ("trust-runtime/src/retain.rs", "load", "fsAccess"),
+    ("trust-runtime/src/runtime/cycle.rs", "execute_cycle", "wallClock"),
+    ("trust-runtime/src/runtime/cycle.rs", "execute_program_by_name", "wallClock"),
+    ("trust-runtime/src/runtime/cycle.rs", "execute_function_block_ref", "wallClock"),
+    ("trust-runtime/src/runtime/metrics_subsystem.rs", "start_timer", "wallClock"),
 }
 
 
@@ -168,6 +201,11 @@ def extra(ctx):
         if len(reviewed) > len(REVIEWED):
             scan_failures.append("a reviewed exception of the hash-use table is matched more than once: "
                                  + "; ".join(cov["hash_scan_reviewed_rows"]))
+        env_rows = data.get("env_rows", [])
+        cov["env_input_rows"] = [f"{r['file']}:{r['line']} {r['kind']} {r['fn']}: {r['text']}" for r in env_rows]
+        for r in env_rows:
+            if (r["file"], r["fn"], r["kind"]) not in REVIEWED_ENV:
+                scan_failures.append(f"unreviewed environment input: {r['file']}:{r['line']} [{r['kind']}] in fn {r['fn']}: {r['text']}")
         for (f, ln, t) in data.get("front_end_std_hash", []):
             scan_failures.append(f"std hash container in a front-end crate: {f}:{ln} {t}")
     except Exception as e:  # the translator already reported a failure
@@ -183,6 +221,8 @@ def extra(ctx):
     if ncases and sens < ncases:
         failures.append(f"cross-process experiment lost its sensitivity: only {sens} of {ncases} cases saw >= 3 "
                         "distinct std::HashMap iteration orders among the observing processes")
+    if stats.get("stopped_after_hangs", 0):
+        failures.append("three in-process observations did not finish (abandoned threads): generation stopped early")
     if ncases and stats.get("child_failed", 0):
         failures.append(f"{stats['child_failed']} child process(es) crashed or produced no observation")
     return {"coverage": cov, "failures": failures}
